@@ -1324,3 +1324,15 @@ PROPS["C13"]["partial_gap"] += (' UPDATE (composed model): that N model stations
     'C13_multi_visits_ok). STILL NOT proved: the RING hypotheses of C13_rotation_bound_stations for the composed system - the order of the visits '
     '(stable ring, one holder at a time) and timing_ok C O - which need a well-behaved medium and a poll-period bound; the rotation bound for '
     'the composed system therefore remains conditional.')
+# agent nb, stretch (coq/Proofs/MultiHandover.v): one GLOBAL step on the concrete medium
+PROPS["C01"]["level_note"] += (' GLOBAL STEP on the concrete medium (Proofs/MultiHandover.v): Multi_ideal_delivers_rest (what ideal_medium hands to a '
+    'station when the last transmission on the medium is complete and everything earlier was delivered) and Multi_handover_step_partial: in a '
+    'composed system of any size on ideal_medium, when station ia has transmitted the token telegram to ib and supervises its pass '
+    '(CheckTokenPass, not a holder in its own view) and ib idles in the ring with ia as predecessor (the already arrived bytes of the telegram '
+    'in its buffer, other stations polling but nobody transmitting), the poll of ib at a time at which the telegram is complete returns, '
+    'transmits nothing and makes ib the token holder in its own view, ia unchanged: exactly one of the two holds the token after the step. '
+    'Multi_handover_hypotheses_satisfiable: the computed two-station run is in such a state after 163 polls.')
+PROPS["C01"]["partial_gap"] += (' Multi_handover_step_partial is ONE global step (labelled _partial), not an invariant: token uniqueness over all '
+    'reachable states of the composed system is not proved (missing: an inductive invariant tying all stations\' views to the medium\'s history '
+    'through claims, GAP polls, retries and removals - a receiver still in CheckTokenPass, as in a two-station ring, is not covered by the lemma -, '
+    'under a loss-free medium, a poll period small against Tslot and distinct addresses).')
